@@ -1,10 +1,14 @@
 from cfg.common import FLOAT_ASSUMPTION, NOTE_COMMON
+from cfg.train_kernels_pre import (regen as regen_train_kernels, TRAIN_KERNEL_THEOREMS_FOR, TRAIN_KERNEL_TRUSTED,
+                                   TRAIN_KERNEL_ASSUMPTION)
 
 PROP = {
     'anchors': [('track/path_track/path_tpc.rs', 'extend'), ('lin_search_hint.rs', 'calc_idx'), ('train/resistance/kind/path_res.rs', 'calc_res'), ('train/resistance/kind/path_res.rs', 'calc_res_strap'), ('train/resistance/method/strap.rs', 'update_res'), ('train/resistance/kind/rolling.rs', 'calc_res'), ('train/resistance/kind/davis_b.rs', 'calc_res'), ('train/resistance/kind/aerodynamic.rs', 'calc_res'), ('train/resistance/kind/bearing.rs', 'calc_res'), ('track/path_track/path_res_coeff.rs', 'calc_res_val')],
     'blocks': ['train'],
-    'proof_modules': ['C07'],
-    'namespaces': ['Altrios.Proofs.C07'],
+    'pre': [regen_train_kernels],
+    'trusted_extra': [TRAIN_KERNEL_TRUSTED],
+    'proof_modules': ['C07', 'TrainKernels'],
+    'namespaces': ['Altrios.Proofs.C07', 'Altrios.Proofs.TrainKernels'],
     'required_theorems': [
         'Altrios.Proofs.C07.C07_calcIdx_fwd',
         'Altrios.Proofs.C07.C07_calcIdx_bwd',
@@ -21,20 +25,20 @@ PROP = {
         'Altrios.Proofs.C07.C07_strapInv_init',
         'Altrios.Proofs.C07.C07_updateRes_step',
         'Altrios.Proofs.C07.C07_extend_model',
-    ],
+    ] + TRAIN_KERNEL_THEOREMS_FOR['C07'],
     'nontrivial_stats': ['train.ss.step_ok', 'train.sl.step_ok', 'op.calc_idx'],
     'rule': 'each evaluation is one real update_res call on a state reached by a set-speed or speed-limited run (front and rear '
             'in the same or different segments, trains shorter and longer than links), or one direct calc_idx call with hints '
             'below/at/above the true segment in all three directions; non-trivial = every accepted step / direct call',
     'assumptions': [FLOAT_ASSUMPTION,
                     'backward evaluation during braking-curve construction is covered by direct calc_idx ops (Bwd/Unk) and by the '
-                    'theorems; BrakingPoints::recalc itself is exercised through whole runs'],
+                    'theorems; BrakingPoints::recalc itself is exercised through whole runs'] + [TRAIN_KERNEL_ASSUMPTION],
 }
 
 TEXT = {
     'design_ref': '§7.5',
     'note': NOTE_COMMON,
-    'technique': 'Lean 4 proof (refinement of the cached-index search to the declarative segment lookup) + bit-exact correspondence',
+    'technique': 'Lean 4 proof (refinement of the cached-index search to the declarative segment lookup) + bit-exact correspondence + translator tie (the straight-line train kernels are re-translated from the Rust text on every run and proved equal to the model)',
     'text': ('Kernel-checked refinement: for a continuous piecewise-linear profile with strictly increasing offsets the cached-index search returns the segment '
              'containing the position whenever the cached index is on the correct side (C07_calcIdx_fwd/bwd), the value read there equals the declarative cumulative '
              'value under either boundary convention (C07_calcIdx_value_*), path_res::Strap::calc_res returns (E(front)-E(rear))/length in both the coincident and the '
